@@ -120,6 +120,8 @@ def c16(res: CheckResult) -> None:
     res.assumptions = COMMON_ASSUMPTIONS
     call_unit(res, "several falsy contracts (groups, stacks, levels) x all truth assignments",
               list(F.fam_order(res.tier, rng)), ic, require_outcomes=["Violation", "ErrInst", "ErrFact"])
+    call_unit(res, "sequences of calls with different arguments on callables with several precondition groups",
+              list(F.fam_order_seq(res.tier, rng)), ic)
     random_unit(res, "random programs beyond the exhaustive bounds", list(F.fam_random(res.tier, rng, "order")), ic)
     _passive(res)
 
